@@ -30,7 +30,8 @@ def finalLog : CLog → List Msg → CLog
   | l, m :: ms => finalLog (publish l m).1 ms
 
 /- Some hypotheses of the statements below are not needed by the proofs (`Inv l` in `stored_iff`,
-`rejected_incorrect_offset`, `rejected_unchanged`, `waived_accepted`; `l.occ = true` in
+`rejected_incorrect_offset`, `rejected_unchanged`, `waived_accepted`, `unencodable_rejected`;
+`l.occ = true` in
 `stored_are_appended`); the statements are kept as specified. -/
 set_option linter.unusedVariables false
 
@@ -50,9 +51,10 @@ theorem finalLog_eq (l : CLog) (ms : List Msg) : finalLog l ms = Occ.finalP l ms
 
 /-- Stored if and only if the expected offset is waived (-1) or equals the offset the message
 would be assigned. -/
-theorem stored_iff (l : CLog) (m : Msg) (h : Inv l) (hocc : l.occ = true) (hro : l.readonly = false) :
+theorem stored_iff (l : CLog) (m : Msg) (h : Inv l) (hocc : l.occ = true) (hro : l.readonly = false)
+    (henc : m.body.encodable = true) :
     (∃ o, (publish l m).2 = .ok o) ↔ (m.expected = -1 ∨ m.expected = l.nextOffset) :=
-  Occ.pub_stored_iff l m hocc hro
+  Occ.pub_stored_iff l m hocc hro henc
 
 /-- A stored conditional publish is stored at exactly the next offset — which is the expected
 one unless the check was waived — and appended at the end of the log. -/
@@ -64,9 +66,10 @@ theorem stored_at_expected (l : CLog) (m : Msg) (o : Int) (h : Inv l) (hocc : l.
 
 /-- Otherwise the publisher gets the incorrect-offset error … -/
 theorem rejected_incorrect_offset (l : CLog) (m : Msg) (h : Inv l) (hocc : l.occ = true)
-    (hro : l.readonly = false) (hne : m.expected ≠ -1) (hne' : m.expected ≠ l.nextOffset) :
+    (hro : l.readonly = false) (henc : m.body.encodable = true)
+    (hne : m.expected ≠ -1) (hne' : m.expected ≠ l.nextOffset) :
     (publish l m).2 = .err "incorrect-offset" :=
-  Occ.pub_rejected l m hocc hro hne hne'
+  Occ.pub_rejected l m hocc hro henc hne hne'
 
 /-- … and the log is unchanged. -/
 theorem rejected_unchanged (l : CLog) (m : Msg) (e : String) (h : Inv l)
@@ -76,8 +79,15 @@ theorem rejected_unchanged (l : CLog) (m : Msg) (e : String) (h : Inv l)
 
 /-- Publishes that waive the check are always accepted (on a writable log). -/
 theorem waived_accepted (l : CLog) (m : Msg) (h : Inv l) (hro : l.readonly = false)
-    (hw : m.expected = -1) : ∃ o, (publish l m).2 = .ok o :=
-  Occ.pub_waived l m hro hw
+    (henc : m.body.encodable = true) (hw : m.expected = -1) : ∃ o, (publish l m).2 = .ok o :=
+  Occ.pub_waived l m hro henc hw
+
+/-- A message that cannot be encoded (a header key longer than 32767 bytes) is refused with the
+encode error — no panic — and nothing is written. -/
+theorem unencodable_rejected (l : CLog) (m : Msg) (h : Inv l) (hro : l.readonly = false)
+    (henc : m.body.encodable = false) :
+    (publish l m).2 = .err "encode" ∧ (publish l m).1.abs = l.abs :=
+  Occ.pub_unencodable l m hro henc
 
 /-- The invariant is kept, so the statements above apply to every publish of a history. -/
 theorem publish_inv (l : CLog) (m : Msg) (h : Inv l) : Inv (publish l m).1 ∧
